@@ -161,4 +161,114 @@ theorem refused_of_headChecks (v a : Str) (id : Nat) (img : Image) (script : Lis
     | uniqScan => simp [headChecks] at h
     | insert => simp [headChecks] at h
 
+/-! ### what `serialize` writes: no arch key that is not in the manifest -/
+
+def outArchKeys (o : OutCells) : List Str := o.flatMap fun va => va.2.map (·.1)
+
+theorem outArchKeys_cons (va : Str × List (Str × List PyVal)) (o : OutCells) :
+    outArchKeys (va :: o) = va.2.map (·.1) ++ outArchKeys o := by
+  simp [outArchKeys]
+
+theorem mem_keys_outArchAppend {as : List (Str × List PyVal)} {a : Str} {d : PyVal} {x : Str} :
+    x ∈ (outArchAppend as a d).map (·.1) → x = a ∨ x ∈ as.map (·.1) := by
+  induction as with
+  | nil => intro h; simp [outArchAppend] at h; exact Or.inl h
+  | cons al rest ih =>
+    obtain ⟨a', l⟩ := al
+    unfold outArchAppend
+    split
+    · intro h; exact Or.inr (by simpa using h)
+    · intro h
+      simp only [List.map_cons, List.mem_cons] at h ⊢
+      rcases h with h | h
+      · exact Or.inr (Or.inl h)
+      · rcases ih h with e | e
+        · exact Or.inl e
+        · exact Or.inr (Or.inr e)
+
+theorem mem_outArchKeys_outAppend {o : OutCells} {v a : Str} {d : PyVal} {x : Str} :
+    x ∈ outArchKeys (outAppend o v a d) → x = a ∨ x ∈ outArchKeys o := by
+  induction o with
+  | nil => intro h; simp [outAppend, outArchKeys] at h; exact Or.inl h
+  | cons va rest ih =>
+    obtain ⟨v', as⟩ := va
+    unfold outAppend
+    split
+    · intro h
+      rw [outArchKeys_cons] at h ⊢
+      rcases List.mem_append.mp h with h | h
+      · rcases mem_keys_outArchAppend h with e | e
+        · exact Or.inl e
+        · exact Or.inr (List.mem_append_left _ e)
+      · exact Or.inr (List.mem_append_right _ h)
+    · intro h
+      rw [outArchKeys_cons] at h ⊢
+      rcases List.mem_append.mp h with h | h
+      · exact Or.inr (List.mem_append_left _ h)
+      · rcases ih h with e | e
+        · exact Or.inl e
+        · exact Or.inr (List.mem_append_right _ e)
+
+theorem serializeCell_keys (v a : Str) : ∀ (c : Cell) (out out' : OutCells), serializeCell v a c out = .ok out' →
+    ∀ x ∈ outArchKeys out', x = a ∨ x ∈ outArchKeys out := by
+  intro c
+  induction c with
+  | nil => intro out out' h x hx; simp only [serializeCell, Except.ok.injEq] at h; subst h; exact Or.inr hx
+  | cons e rest ih =>
+    intro out out' h x hx
+    obtain ⟨id, img⟩ := e
+    unfold serializeCell at h
+    obtain ⟨d, _, h2⟩ := bind_ok h
+    rcases ih _ out' h2 x hx with e | e
+    · exact Or.inl e
+    · exact mem_outArchKeys_outAppend e
+
+theorem serializeArches_keys (v : Str) : ∀ (as : List (Str × Cell)) (out out' : OutCells), serializeArches v as out = .ok out' →
+    ∀ x ∈ outArchKeys out', x ∈ as.map (·.1) ∨ x ∈ outArchKeys out := by
+  intro as
+  induction as with
+  | nil => intro out out' h x hx; simp only [serializeArches, Except.ok.injEq] at h; subst h; exact Or.inr hx
+  | cons ac rest ih =>
+    intro out out' h x hx
+    obtain ⟨a, c⟩ := ac
+    unfold serializeArches at h
+    obtain ⟨out1, h1, h2⟩ := bind_ok h
+    rcases ih out1 out' h2 x hx with e | e
+    · exact Or.inl (List.mem_cons_of_mem _ e)
+    · rcases serializeCell_keys v a c out out1 h1 x e with e' | e'
+      · exact Or.inl (by simp [e'])
+      · exact Or.inr e'
+
+theorem serializeCells_keys : ∀ (cs : Cells) (out out' : OutCells), serializeCells cs out = .ok out' →
+    ∀ x ∈ outArchKeys out', x ∈ archKeys cs ∨ x ∈ outArchKeys out := by
+  intro cs
+  induction cs with
+  | nil => intro out out' h x hx; simp only [serializeCells, Except.ok.injEq] at h; subst h; exact Or.inr hx
+  | cons va rest ih =>
+    intro out out' h x hx
+    obtain ⟨v, as⟩ := va
+    unfold serializeCells at h
+    obtain ⟨out1, h1, h2⟩ := bind_ok h
+    rw [archKeys_cons]
+    rcases ih out1 out' h2 x hx with e | e
+    · exact Or.inl (List.mem_append_right _ e)
+    · rcases serializeArches_keys v as out out1 h1 x e with e' | e'
+      · exact Or.inl (List.mem_append_left _ e')
+      · exact Or.inr e'
+
+/-- the document `Images.serialize` builds: its image table has no arch key that the manifest does not have -/
+theorem serialize_keys (s : ImgState) (doc : PyVal) (h : (serialize s).2 = .ok doc) :
+    ∃ (hdr comp : PyVal) (out : OutCells),
+      doc = .dict [(L "header", hdr), (L "payload", .dict [(L "images", out.toPy), (L "compose", comp)])]
+      ∧ ∀ x ∈ outArchKeys out, x ∈ archKeys s.cells := by
+  simp only [serialize] at h
+  obtain ⟨_, _, h⟩ := bind_ok h
+  obtain ⟨comp, _, h⟩ := bind_ok h
+  obtain ⟨out, hout, h⟩ := bind_ok h
+  injection h with h
+  refine ⟨_, comp, out, h.symm, fun x hx => ?_⟩
+  rcases serializeCells_keys s.cells [] out hout x hx with e | e
+  · exact e
+  · simp [outArchKeys] at e
+
 end PM.Img
